@@ -15,6 +15,53 @@ from .sched import PassShape, parse_cap, parse_resv, parse_free
 
 
 # --------------------------------------------------------------------------------------------------------------------
+def _never_none(e):
+    """an arithmetic value (it cannot be None)"""
+    return isinstance(e, (ast.BinOp, ast.UnaryOp)) or (isinstance(e, ast.Constant) and isinstance(e.value, (int, float)) and not isinstance(e.value, bool))
+
+
+def norm_conds(conds):
+    """path conditions with the 'optional value' idiom resolved: `(E if C else None) is not None` says C (E arithmetic), and
+    `(None if C else E) is None` says C; conjunctions that appear are split"""
+    out = []
+    for t, pol in conds:
+        t2, p2 = facts.norm_cond(t, pol)
+        m = match("$x is None", t2)
+        if m and isinstance(m['x'], ast.IfExp):
+            x = m['x']
+            b_none = isinstance(x.body, ast.Constant) and x.body.value is None
+            o_none = isinstance(x.orelse, ast.Constant) and x.orelse.value is None
+            if o_none and _never_none(x.body):
+                # x is None  <=>  not C
+                out += norm_conds(facts.split_conj(x.test, not p2))
+                continue
+            if b_none and _never_none(x.orelse):
+                out += norm_conds(facts.split_conj(x.test, p2))
+                continue
+        out.append((t, pol))
+    return out
+
+
+def specialise(e, conds):
+    """copy of expression e in which every conditional expression whose test is known from the path conditions is replaced by
+    the branch that is taken"""
+    known = []
+    for t, pol in conds:
+        t2, p2 = facts.norm_cond(t, pol)
+        known.append((t2, p2))
+
+    class T(ast.NodeTransformer):
+        def visit_IfExp(self, n):
+            self.generic_visit(n)
+            t2, p2 = facts.norm_cond(n.test, True)
+            for k, kp in known:
+                if same(k, t2):
+                    return n.body if kp == p2 else n.orelse
+            return n
+    import copy
+    return T().visit(copy.deepcopy(e))
+
+
 def jump_bound(ctx, o, ps: PassShape, pt):
     """recursive calls on dependencies (not children) pass the project bound"""
     n = 0
@@ -83,9 +130,25 @@ def first_fit_and_greedy(ctx, o, S):
     # search: the only return inside the loop is under free > 0 and nothing else; the step follows in the same iteration
     loops = [n for n in walk_no_nested(f.node) if isinstance(n, (ast.For, ast.While))]
     rets = [n for n in walk_no_nested(f.node) if isinstance(n, ast.Return)]
+    usage_p_ = f.params[2]
+    blind = []
     if len(loops) != 1:
+        cfg0 = cfg_of(f)
+        exs0 = Expander(prog, f, ctx.typer)
+        for r in rets:
+            v0 = exs0.expand(r.value) if r.value is not None else None
+            cs0 = []
+            for t0, pol0 in cfg0.conditions(cfg0.node_of(r)):
+                cs0.append(exs0.expand(t0, cfg0.node_containing(t0)))
+            mentions = any(isinstance(x, ast.Name) and x.id == usage_p_ for e_ in cs0 + ([v0] if v0 is not None else []) for x in ast.walk(e_))
+            if not mentions:
+                blind.append(r)
+                o.refute(f, r, r, f"the search returns `{src(v0)[:50] if v0 is not None else 'None'}` on a path that never consults the usage ledger `{usage_p_}` "
+                                  f"(under " + ', '.join(src(c_)[:40] for c_ in cs0[-3:]) + "): the day is accepted without `free > 0`, so a start can land on a "
+                                  "day that is already booked up and its time of day does not encode the booked share")
+    if len(loops) != 1 and not blind:
         o.undecided(f, f.node, 'search', "search is not a single loop")
-    else:
+    elif len(loops) == 1:
         cfg = cfg_of(f)
         lp = loops[0]
         exs = Expander(prog, f, ctx.typer)
@@ -96,6 +159,7 @@ def first_fit_and_greedy(ctx, o, S):
                 if pol0 and any(t0 is lt_ for lt_ in loop_tests):
                     continue        # the step bound of a `while steps < max_steps` search loop, not a condition on the day
                 conds += facts.split_conj(exs.expand(t0, cfg.node_containing(t0)), pol0)
+            conds = norm_conds(conds)
             extra = []
             okfree = False
             for t, pol in conds:
@@ -140,7 +204,23 @@ def first_fit_and_greedy(ctx, o, S):
                     if st and st[1] == '>' and (parse_free(st[0], S['balance']) or (isinstance(st[0], ast.Name) and st[0].id == gv)):
                         continue
                     extra.append((a, pa))
+            # the step bound (`if days > max_steps: raise ..`) placed before the booking is not a condition on the day
+            raising = [n_.test for n_ in walk_no_nested(fill.node) if isinstance(n_, ast.If) and n_.body and isinstance(n_.body[-1], ast.Raise) and not n_.orelse]
+            raw_raise = []
+            for t0, pol0 in fcfg.conditions(fcfg.node_containing(c)):
+                if any(t0 is rt for rt in raising) and not pol0:
+                    raw_raise += [src(a_) for a_, _ in facts.split_conj(ex.expand(t0, fcfg.node_containing(t0)), pol0)]
+            extra = [(a, pa) for a, pa in extra if src(a) not in raw_raise]
+            dname_ = attr_or_name(c.args[1]) if len(c.args) > 1 else None
+            on_date = [(a, pa) for a, pa in extra
+                       if dname_ and {x.id for x in ast.walk(a) if isinstance(x, ast.Name)} == {dname_}
+                       and not any(parse_cap(x) or sched._resv_call(x) for x in ast.walk(a))]
             cmp_ = [(a, pa) for a, pa in extra if isinstance(a, ast.Compare) and any(parse_free(x, S['balance']) or parse_cap(x) for x in ast.walk(a))]
+            if on_date:
+                o.refute(fill, c, on_date[0][0], "a visited day is booked only if " + ', '.join(facts.cond_texts(on_date))[:100] + ": days are skipped by a test on "
+                         "the date itself, not by the resource's calendar - a day on which the calendar offers free capacity (and which the search accepts) "
+                         "gets no booking")
+                continue
             if cmp_:
                 o.refute(fill, c, cmp_[0][0], "a visited day with free capacity is booked only if additionally " + ', '.join(facts.cond_texts(cmp_))[:120] +
                          ": the search accepts every day with free > 0 as start day, so a start day can get no booking and its remainder stays idle")
@@ -226,6 +306,10 @@ def encoding(ctx, o, ps: PassShape):
     res_p, usage_p, task_p = f.params[1], f.params[2], f.params[4]
     for r in [n for n in walk_no_nested(f.node) if isinstance(n, ast.Return)]:
         v = ex.expand(r.value)
+        if any(isinstance(x, ast.IfExp) and not parse_resv(x, S['balance']) for x in ast.walk(v)):
+            # an optional intermediate (`share = .. if free > 0 else None; if share is not None: return ..`): take the branch the
+            # path conditions of this return select
+            v = specialise(v, norm_conds(facts.node_conditions(prog, f, r, ctx.typer)))
         caps = _find(v, parse_cap)
         resvs = _outer_only(_find(v, lambda n: parse_resv(n, S['balance'])))
         if not caps or not resvs:
@@ -707,27 +791,52 @@ def conservation(ctx, o, S):
              any(x is d.stmt for s in loop.body for x in ast.walk(s))]
     other_defs = [d for d in fl.defs_of(dname) if not is_step(d) and d.node is not None and
                   any(x is d.stmt for s in loop.body for x in ast.walk(s))]
-    if other_defs:
+    derived = None
+    if len(other_defs) == 1 and not steps and other_defs[0].kind == 'assign' and isinstance(other_defs[0].value, ast.BinOp) and \
+            isinstance(other_defs[0].value.op, (ast.Add, ast.Sub)) and isinstance(other_defs[0].value.left, ast.Name):
+        # the day derived from a counter: `date = base + timedelta(days=n)` with `n += 1` once per iteration and `base` fixed
+        dv = other_defs[0]
+        base, off = dv.value.left.id, dv.value.right
+        m_ = match("timedelta(days=$n)", off) or match("timedelta($n)", off) or match("$n * timedelta(days=1)", off) or match("timedelta(days=1) * $n", off)
+        in_loop = lambda d: d.node is not None and d.stmt is not None and any(x is d.stmt for s_ in loop.body for x in ast.walk(s_))
+        if m_ and isinstance(m_['n'], ast.Name) and not [d for d in fl.defs_of(base) if in_loop(d)]:
+            nd = [d for d in fl.defs_of(m_['n'].id) if in_loop(d)]
+            if len(nd) == 1 and nd[0].kind == 'aug' and isinstance(nd[0].stmt.op, ast.Add) and facts.const_num(nd[0].stmt.value) == 1 and \
+                    not [t for t in cfg.conditions(nd[0].node) if any(x is t[0] for s_ in loop.body for x in ast.walk(s_))] and \
+                    not [t for t in cfg.conditions(dv.node) if any(x is t[0] for s_ in loop.body for x in ast.walk(s_))]:
+                derived = 1 if isinstance(dv.value.op, ast.Add) else -1
+    if derived is not None:
+        if derived != S['dir']:
+            o.refute(fill, other_defs[0].stmt, other_defs[0].stmt, f"the fill loop moves by {derived:+d} day per iteration; expected {S['dir']:+d}")
+            return
+        o.site(fill, loop, f"while {left_p} > 0: day derived from a counter stepped by one per iteration, {left_p} -= reserve(min({left_p}, free))")
+        steps = None
+    elif other_defs:
         o.undecided(fill, other_defs[0].stmt, other_defs[0].stmt, f"the day variable `{dname}` is redefined inside the fill loop in a form the rule does not follow")
         return
-    hdr_conds = {id(t) for t, _ in cfg.conditions(cfg.node_of(loop))}
-    uncond = [d for d in steps if not [t for t in cfg.conditions(d.node) if t[0] is not loop.test and id(t[0]) not in hdr_conds]]
-    if len(steps) != 1 or len(uncond) != 1:
-        o.refute(fill, loop, attr_or_name(dvar), f"the day variable is stepped {len(steps)} time(s) per iteration ({len(uncond)} unconditionally); "
-                                                 f"expected exactly one unconditional step")
-        return
-    if steps[0].kind == 'aug':
-        k = facts.day_delta(steps[0].stmt.value)
-        if isinstance(steps[0].stmt.op, ast.Sub) and k is not None:
-            k = -k
+    if steps is None:
+        steps, skip_steps = [], True
     else:
-        k = facts.day_delta(steps[0].value.right)
-        if isinstance(steps[0].value.op, ast.Sub) and k is not None:
-            k = -k
-    if k != S['dir']:
-        o.refute(fill, steps[0].stmt, steps[0].stmt, f"the fill loop steps by `{src(steps[0].stmt)}`; expected exactly {S['dir']:+d} day")
-        return
-    o.site(fill, loop, f"while {left_p} > 0: one step of {k:+g} day, {left_p} -= reserve(min({left_p}, free))")
+        skip_steps = False
+    hdr_conds = {id(t) for t, _ in cfg.conditions(cfg.node_of(loop))}
+    if not skip_steps:
+        uncond = [d for d in steps if not [t for t in cfg.conditions(d.node) if t[0] is not loop.test and id(t[0]) not in hdr_conds]]
+        if len(steps) != 1 or len(uncond) != 1:
+            o.refute(fill, loop, attr_or_name(dvar), f"the day variable is stepped {len(steps)} time(s) per iteration ({len(uncond)} unconditionally); "
+                                                     f"expected exactly one unconditional step")
+            return
+        if steps[0].kind == 'aug':
+            k = facts.day_delta(steps[0].stmt.value)
+            if isinstance(steps[0].stmt.op, ast.Sub) and k is not None:
+                k = -k
+        else:
+            k = facts.day_delta(steps[0].value.right)
+            if isinstance(steps[0].value.op, ast.Sub) and k is not None:
+                k = -k
+        if k != S['dir']:
+            o.refute(fill, steps[0].stmt, steps[0].stmt, f"the fill loop steps by `{src(steps[0].stmt)}`; expected exactly {S['dir']:+d} day")
+            return
+        o.site(fill, loop, f"while {left_p} > 0: one step of {k:+g} day, {left_p} -= reserve(min({left_p}, free))")
     # zero work shortcut
     pre = [n for n in fill.body if n is not loop]
     zero = False
@@ -792,6 +901,9 @@ def ledger_fresh(ctx, o, S):
         led = exc.expand(c.args[usage_idx], cfg_of(calc).node_containing(c))
         if match("_ResourceUsage()", led):
             o.site(calc, c, "ledger constructed by this calc call")
+        elif isinstance(led, ast.Call) and isinstance(led.func, ast.Name) and led.func.id != '_ResourceUsage' and \
+                any(match("_ResourceUsage()", a_) for a_ in list(led.args) + [k.value for k in led.keywords]):
+            o.site(calc, c, f"ledger constructed by this calc call inside the per-call holder `{led.func.id}(..)`")
         elif isinstance(led, ast.Call) and isinstance(led.func, ast.Name) and led.func.id == '_ResourceUsage':
             o.undecided(calc, c, c.args[usage_idx], f"the ledger is constructed with arguments: `{src(led)[:60]}`")
         elif isinstance(led, ast.Attribute) and isinstance(led.value, ast.Name) and led.value.id == calc.params[0]:
@@ -807,6 +919,33 @@ def scheduled_once(ctx, o, ps: PassShape):
     records the task in the memo"""
     S, prog = ps.S, ctx.prog
     memo = ps.memo
+    holder = None
+    if not ps.memo_on_self and not getattr(ps, 'memo_on_task', None) and memo not in ps.f.params and '.' in memo and \
+            memo.split('.')[0] in ps.f.params[1:]:
+        # the memo lives in a per-call parameter object (`run.scheduled_ids`): fine when calc builds that object for this call
+        hp = memo.split('.')[0]
+        hidx = ps.f.params.index(hp) - 1
+        calc = prog.func(S['calc'])
+        exc = Expander(prog, calc, ctx.typer, inline=False)
+        ok_h = True
+        cs_ = facts.calls_named(calc, ps.pname)
+        for c in cs_:
+            a = exc.expand(c.args[hidx], cfg_of(calc).node_containing(c)) if len(c.args) > hidx else None
+            if not (isinstance(a, ast.Call) and isinstance(a.func, ast.Name) and
+                    any(match("[]", x) or match("list()", x) or match("set()", x) for x in list(a.args) + [k.value for k in a.keywords])):
+                ok_h = False
+        if cs_ and ok_h:
+            holder = hp
+    if holder is not None:
+        sc = ps.memo_shortcut() if hasattr(ps, 'memo_shortcut') else None
+        grows_h = [n for n in walk_no_nested(ps.f.node) if isinstance(n, ast.Call) and isinstance(n.func, ast.Attribute) and
+                   src(n.func.value) == memo and n.func.attr in ('append', 'add') and any(match(f"{ps.task}.id", x) for x in n.args)]
+        if sc and sc[0] in ('return', 'wrap') and grows_h:
+            o.site(ps.f, sc[1], f"the pass skips a task already in `{memo}` (per-call holder built by calc)")
+            o.site(ps.f, grows_h[0], f"{memo} records task.id")
+        else:
+            o.undecided(ps.f, ps.f.node, memo, f"memo kept in the parameter object `{holder}`: entry test / recording not in a form the rule follows")
+        return
     if ps.memo_on_self or getattr(ps, 'memo_on_task', None) or memo not in ps.f.params:
         # a memo that outlives the call (scheduler / task state): the second calc() skips every task it has seen - nothing is
         # reserved for them.  sched.memo_is_local names the construct
